@@ -159,6 +159,7 @@ Definition replace (value old new : value) : outcome Json.Value.value :=
 Definition replace_count (value old new count : value) : outcome Json.Value.value :=
   do s <- str_arg value; do po <- str_arg old; do pn <- str_arg new;
   do n <- int_arg count;
+  if n <? 0 then Err ENegativeInteger else
   Ok (VStr (breplace s po pn n)).
 
 (* the splitting loops: at most k pieces cut off, then the remainder *)
